@@ -157,7 +157,7 @@ def _avoid(case, trig):
 # ------------------------------------------------------------------------------------------------
 # strategy
 # ------------------------------------------------------------------------------------------------
-MODES = ["head", "head", "head", "pd", "pd", "pd_head", "kw", "kw", "kw", "chol", "intkernel", "any", "psd"]
+MODES = ["head", "head", "head", "pd", "pd", "pd_head", "kw", "kw", "kw", "chol", "intkernel", "opkernel", "any", "psd"]
 
 
 def _head_recipe(draw, name, doms, max_depth, ex):
@@ -234,6 +234,20 @@ def cases(draw, tier):
         pd = dom == "pd"
     elif mode == "intkernel" and "Kernel.intparam" not in ex:
         r = draw(intkernel_recipes())
+    elif mode == "opkernel" and "Kernel.op_param" not in ex and "Kernel.multitask" not in ex:
+        # a kernel operator holding a SUB-OPERATOR as a keyword argument (LinearOperator-valued hyperparameter): the
+        # flatten / rebuild round trip must restore it as an operator under the same keyword
+        cfg_k = gen.Cfg(dt=draw(st.sampled_from(DTS)), exclude=ex)
+        r = None
+        for _ in range(8):
+            mk_, nk_ = draw(st.sampled_from([2, 4])), draw(st.sampled_from([2, 4]))
+            cand = gen._kernel(draw, cfg_k, "any", mk_, nk_, draw(st.sampled_from(gen.BATCHES[:6])), "Kernel")
+            if cand.get("kernel") == "multitask":
+                cand["op_param"] = "task_root"
+                r = cand
+                break
+        if r is None:
+            r = draw(gen.recipes("any", max_depth=max_depth, dts=DTS, exclude=ex))
     else:
         r = draw(gen.recipes("psd" if mode == "psd" else "any", max_depth=max_depth, dts=DTS, exclude=ex))
     opn = draw(st.sampled_from(OPS))
